@@ -797,7 +797,7 @@ func planC06(prop string, seed uint64, tier string, idx int) *Plan {
 		}
 	}
 	images, indexes, arts := g.gcGraph()
-	extra := g.newBlob(g.r.between(1, 200))
+	extra := g.newBlob(g.r.between(20, 200))
 	// touch every repository so the store knows it
 	for r := range g.p.Repos {
 		g.add(Op{K: "tags", Repo: r})
@@ -806,6 +806,20 @@ func planC06(prop string, seed uint64, tier string, idx int) *Plan {
 	for i := 0; i < n; i++ {
 		repo := g.r.intn(g.nrepos())
 		switch g.r.intn(12) {
+		case 11:
+			if natural {
+				// an upload that takes longer than the grace period plus a tick (its body arrives in pieces that keep the
+				// session alive): only the completion tells the collection that the repository changed
+				gap := k.freq().Milliseconds()
+				if gr := k.grace().Milliseconds(); gr > 0 {
+					gap = gr * 8 / 10
+				}
+				sz := g.p.Objs[extra].Size
+				g.add(Op{K: "blob", Mode: "chunk", Repo: repo, Obj: extra, Sess: g.nextSess(), Chunks: []int{sz}, B: max(1, sz/5), Ms: gap})
+				g.markBlob(repo, extra)
+				break
+			}
+			g.gcHistoryOp(repo, images, indexes, arts, extra)
 		case 0:
 			if natural {
 				g.add(Op{K: "gcwait"})
